@@ -119,7 +119,13 @@ func (rc *realController) UpgradeBatch(ctx *batchcontext.BatchContext) error {
 	}
 
 	strategy := util.GetDeploymentStrategy(rc.object)
-	if control.IsCurrentMoreThanOrEqualToDesired(strategy.Partition, ctx.DesiredPartition) {
+	if strategy.Partition.Type != ctx.DesiredPartition.Type {
+		// An absolute number and a percentage can only be compared relative to the size of the workload (a plan may
+		// mix both): compare what the two partitions mean for this Deployment.
+		if deploymentutil.NewRSReplicasLimit(strategy.Partition, rc.object) >= deploymentutil.NewRSReplicasLimit(ctx.DesiredPartition, rc.object) {
+			return nil // Satisfied, no need patch again.
+		}
+	} else if control.IsCurrentMoreThanOrEqualToDesired(strategy.Partition, ctx.DesiredPartition) {
 		return nil // Satisfied, no need patch again.
 	}
 
